@@ -250,6 +250,7 @@ func wsExchange(mux http.Handler, c Case) string {
 		return "" // refused at the handshake: nothing was delivered
 	}
 	defer conn.Close()
+	defer conn.SetDeadline(time.Time{}) // (a pending deadline timer would keep the connection's buffers alive)
 	conn.SetDeadline(time.Now().Add(10 * time.Second))
 	var rd io.Reader = conn
 	if br != nil {
